@@ -310,6 +310,22 @@ Theorem C09_link_peak_amp : forall argsort, C05.Spec.Argsort_ok argsort ->
 Proof. exact link_peak_amp. Qed.
 Print Assumptions C09_link_peak_amp.
 
+(* C09_spike_amps composed with the link: with the dataset's templates in C05's representation, the scaled
+   amplitude of spike k is stored amplitude * FIRST amplitude of get_template(spike_templates[k]) * unit factor *)
+Theorem C09_link_spike_amps : forall argsort, C05.Spec.Argsort_ok argsort ->
+  forall (i : amp_in) (d : C05.Model.dataset) (factor : Q) (o : amp_out QN) (k : nat) (s a : Z) (rec : C05.Model.trec),
+  amplitudes_true_Q i (Some factor) = Some o ->
+  (forall s', In s' (ai_spikes i) -> s' < ai_nwav i) ->
+  nth_error (ai_spikes i) k = Some s -> nth_error (ai_amps i) k = Some a ->
+  C05.Model.d_cols d = None -> 0 <= C05.Model.d_nclosest d ->
+  C05.Model.d_wmi d = ai_wmi i -> C05.Model.d_scale d = 1 ->
+  C05.Model.d_templates d = map (transpose (length (ai_wmi i))) (ai_data i) ->
+  C05.Model.get_template argsort d (C05.Model.default_request (Z.to_nat s)) = Some rec ->
+  exists q, nth_error (ao_spike o) k = Some (Some q) /\
+            (q == inject_Z a * inject_Z (nth 0%nat (C05.Model.t_amplitude rec) 0%Z) * factor)%Q.
+Proof. exact link_spike_amps. Qed.
+Print Assumptions C09_link_spike_amps.
+
 (* _channels (templates_channels / clusters_channels, computed on the STORED template) returns the best_channel
    of get_template(n, unwhiten=False), for any channel list / threshold of the request *)
 Theorem C09_link_peak_channel : forall argsort (nc : nat) (data : list mat) (out : list Z) (d : C05.Model.dataset)
